@@ -29,9 +29,12 @@ def _objects(rng, n_random: int):
         "NDArray": npt.NDArray,
     }
     aliases["A_alias"] = typing.TypeAliasType("A_alias", aliases["A_plain"])
+    # a second, different alias of the SAME name in the same module (two functions that each define a local `Img`): resolved by the object, never by its spelling
+    aliases["A_fixed2"] = typing.TypeAliasType("A_fixed", np.ndarray[Any, np.dtype[np.uint8]])
+    aliases["A_arr2"] = typing.TypeAliasType("A_arr", list[S], type_params=(S,))
     if not hasattr(npt.NDArray, "__value__"):
         del aliases["NDArray"]  # an older numpy: a plain generic alias, covered by the `plain` stratum
-    arity = {"A_list": 1, "A_arr": 1, "A_te": 1, "A_dict": 2, "NDArray": 1}
+    arity = {"A_list": 1, "A_arr": 1, "A_te": 1, "A_dict": 2, "NDArray": 1, "A_arr2": 1}
     scalars = [np.float32, np.float64, np.int32, np.uint8, np.bool_, int, str, np.float32 | np.float64, list[int], Any]
     out = []
     for o in (np.ndarray, list, dict, int, Any, np.float32, T, type(None)):
@@ -73,6 +76,7 @@ def _spellings(aliases):
                 spellings.append((f"{name}[{sc!r}]", aliases[name][sc], written))
     spellings.append(("A_fixed", aliases["A_fixed"], np.ndarray[typing.Any, np.dtype[np.float32]]))
     spellings.append(("A_plain", aliases["A_plain"], np.ndarray))
+    spellings.append(("A_fixed2[a second alias of the name A_fixed, declaring uint8]", aliases["A_fixed2"], np.ndarray[typing.Any, np.dtype[np.uint8]]))
 
     return spellings
 
